@@ -503,4 +503,15 @@ def cases(tier, seed):
       add('case_pwl', nk=nk, spacing='a', units=3, per_unit_input=True, required=False, timeout=300)
       add('case_pwl', nk=nk, spacing='u', units=1, kptype='learned_interior', required=False, timeout=600)
       add('case_pwl_monotone', nk=nk, spacing='a', units=1, required=False, timeout=600)
+      add('case_pwl', nk=nk, spacing='u', units=2, cyclic=True, required=False, timeout=300)
+      add('case_pwl', nk=nk, spacing='a', units=2, per_unit_input=True, split=True, missing='learned', missing_input=-2.0, required=False, timeout=300)
+      add('case_pwl', nk=nk, spacing='a', units=2, missing='fixed', missing_input=None, required=False, timeout=300)
+      for z_ in range(nk - 1):
+        add('case_pwl_underflow', nk=nk, spacing='a', zero=z_, required=False, timeout=300)
+    for nk in (7, 8):
+      add('case_pwl', nk=nk, spacing='u', units=1, required=False, timeout=600)
+    add('case_pwl', nk=4, spacing='a', units=3, kptype='learned_interior', per_unit_input=True, required=False, timeout=600)
+    add('case_pwl_monotone', nk=4, spacing='u', units=2, kptype='learned_interior', required=False, timeout=600)
+    add('case_categorical', buckets=5, units=2, default=3, per_unit_input=True)
+    add('case_categorical', buckets=6, units=1, default=None)
   return out
